@@ -67,31 +67,47 @@ theorem nodup_pairIdx (n1 n2 : Nat) (symmetry : Bool) : (pairIdx n1 n2 symmetry)
       · simp [s1, s2] at h1 h2
         exact hab (h1.1.trans h2.1.symm)
 
-/-! ## two different lists: stationary samples × all samples
+/-! ## two different lists (stationary samples × all samples), identity-based skip
 
-`pos s` is the position in the list of all samples of the `s`-th stationary sample.  The pairs
-that *should* be instantiated are all `(s, j)` with `j ≠ pos s` (a sample is not paired with
-itself); the code skips `j = s`. -/
+Before the `fix:` commit the skip was index-based (`i == j` across two different lists) and the
+completeness statement below was false (stationary point declared after another sample); the
+refutation used to live here as `two_lists_full_fails`. -/
 
-/-- the index-based skip is right exactly when every stationary sample sits at its own index -/
-theorem two_lists_partial (ns n : Nat) (pos : Nat → Nat) (hpos : ∀ s < ns, pos s = s) (s j : Nat) :
-    (s, j) ∈ pairIdx ns n false ↔ s < ns ∧ j < n ∧ j ≠ pos s := by
-  rw [mem_pairIdx]
-  simp only [pairSkipped, Bool.and_false, Bool.or_false, beq_eq_false_iff_ne, ne_eq]
+theorem mem_zipIdx_iff {α : Type} (l : List α) (a : α) (i : Nat) :
+    (a, i) ∈ l.zipIdx ↔ l[i]? = some a := by
+  rw [List.mem_zipIdx_iff_getElem?]
+
+/-- **completeness for two lists**: without the symmetry halving, a condition is instantiated on
+exactly the ordered pairs (sample of list 1, sample of list 2) that are not the same sample -/
+theorem mem_pairsTwo {α : Type} [DecidableEq α] (l1 l2 : List α) (a b : α) :
+    (a, b) ∈ pairsTwo l1 l2 false ↔ a ∈ l1 ∧ b ∈ l2 ∧ a ≠ b := by
+  unfold pairsTwo skipTwo
+  simp only [List.mem_flatMap, List.mem_filterMap, Bool.and_false, Bool.or_false, decide_eq_true_eq]
   constructor
-  · rintro ⟨hs, hj, hne⟩; exact ⟨hs, hj, by rw [hpos s hs]; exact fun e => hne e.symm⟩
-  · rintro ⟨hs, hj, hne⟩; exact ⟨hs, hj, by rw [hpos s hs] at hne; exact fun e => hne e.symm⟩
+  · rintro ⟨⟨a', i⟩, hai, ⟨b', j⟩, hbj, h⟩
+    by_cases hab : a' = b'
+    · simp [hab] at h
+    · simp only [hab, if_false, Option.some.injEq, Prod.mk.injEq] at h
+      obtain ⟨rfl, rfl⟩ := h
+      rw [mem_zipIdx_iff] at hai hbj
+      exact ⟨List.mem_of_getElem? hai, List.mem_of_getElem? hbj, hab⟩
+  · rintro ⟨ha, hb, hne⟩
+    obtain ⟨i, hi, rfl⟩ := List.getElem_of_mem ha
+    obtain ⟨j, hj, rfl⟩ := List.getElem_of_mem hb
+    refine ⟨(l1[i], i), (mem_zipIdx_iff _ _ _).mpr (List.getElem?_eq_getElem hi), (l2[j], j),
+      (mem_zipIdx_iff _ _ _).mpr (List.getElem?_eq_getElem hj), ?_⟩
+    simp [hne]
 
-/-- **the full statement fails**: one stationary sample recorded *after* one ordinary sample
-(`pos 0 = 1`, two samples in all): the genuine pair `(x*, x₀)` is skipped and the trivial pair
-`(x*, x*)` is generated instead. -/
-theorem two_lists_full_fails :
-    ¬ (∀ (ns n : Nat) (pos : Nat → Nat), (∀ s < ns, pos s < n) →
-        ∀ s j, (s, j) ∈ pairIdx ns n false ↔ s < ns ∧ j < n ∧ j ≠ pos s) := by
-  intro h
-  have := (h 1 2 (fun _ => 1) (by intro s _; simp) 0 0).mpr ⟨by simp, by simp, by simp⟩
-  rw [mem_pairIdx] at this
-  simp [pairSkipped] at this
+/-- the order in which the samples of either list were recorded does not change the set of
+instantiated pairs -/
+theorem pairsTwo_perm_invariant {α : Type} [DecidableEq α] (l1 l1' l2 l2' : List α)
+    (h1 : l1.Perm l1') (h2 : l2.Perm l2') (a b : α) :
+    (a, b) ∈ pairsTwo l1 l2 false ↔ (a, b) ∈ pairsTwo l1' l2' false := by
+  rw [mem_pairsTwo, mem_pairsTwo, h1.mem_iff, h2.mem_iff]
+
+/-- the stationary point declared *after* another sample (the input on which the index-based
+skip dropped the genuine pair): both orders instantiate the pair `(x*, x₀)` and never `(x*, x*)` -/
+example : pairsTwo [1] [0, 1] false = [(1, 0)] ∧ pairsTwo [0] [0, 1] false = [(0, 1)] := by decide
 
 /-! ## independence of the declaration order (same list) -/
 
@@ -122,5 +138,5 @@ theorem pairsOf_perm_invariant {α : Type} (l l' : List α) (hnd : l.Nodup) (hp 
   rw [mem_pairsOf l hnd, mem_pairsOf l' (hp.nodup_iff.mp hnd), hp.mem_iff, hp.mem_iff]
 
 #print axioms pairsOf_perm_invariant
-#print axioms two_lists_full_fails
+#print axioms mem_pairsTwo
 #print axioms nodup_pairIdx
